@@ -180,7 +180,8 @@ def main(tier):
             ok6 = False
             if ok5:
                 t_rho, t_k, t_tr = "xof%s@0+32" % h_id, "xof%s@96+32" % h_id, "xof%s@0+64" % tr_id
-                ok6 = sorted(pkb.values()) == sorted([(32, t_rho), (64, t_tr)]) and sorted(skb.values()) == sorted([(32, t_rho), (32, t_k), (64, t_tr)])
+                srt = lambda xs: sorted(xs, key=lambda x: (x[0], str(x[1])))  # a rewritten field has no tag (None)
+                ok6 = srt(pkb.values()) == srt([(32, t_rho), (64, t_tr)]) and srt(skb.values()) == srt([(32, t_rho), (32, t_k), (64, t_tr)])
             ob(ok6, "K6:byte-field-provenance:%s" % ent,
                {"rule": "K6 the public key holds unmodified copies of H(xi|k|l)[0..32] and of the 64 tr bytes; the private key of H(..)[0..32], H(..)[96..128] and the same tr", "entry": j["root"], "set": s,
                 "fields": bytes_fields})
